@@ -82,8 +82,10 @@ def stoichiometry(r: dict, rnd: random.Random | None = None) -> dict:
                 merged.append(("p", p.pop(0)))
         order = merged
     st = {}
+    den = int(r.get("den", 1))
     for kind, c in order:
-        st[c] = -r["subs"].count(c) if kind == "s" else r["prods"].count(c)
+        n = -r["subs"].count(c) if kind == "s" else r["prods"].count(c)
+        st[c] = n if den == 1 else n / den        # (only unmapped reactions carry non-integer coefficients)
     return st
 
 
